@@ -35,7 +35,7 @@ RULE = ("cases = (dataset, query or rule, quantifier an|the|infer, solution-coun
         "a fresh build is evaluated with no ambient block, inside symbolic_mode() and inside rule_mode(); outcomes must "
         "agree with each other and with the reference. Non-trivial = the condition contains a predicate or the head "
         "constructs an instance (every case is evaluated under the two non-empty ambient modes); distinct = canonical JSON.")
-BUDGET = {"quick": (4, 300), "thorough": (16, 3000)}
+BUDGET = {"quick": (8, 250), "thorough": (16, 3000)}
 ASSUMPTIONS = ["queries are built in the block their construction needs and evaluated in the ambient block under test"]
 
 
